@@ -43,6 +43,7 @@ type traceStep struct {
 	k     int
 	names []string
 	at    int64 // virtual time of the step in the counterexample (-1: not recorded)
+	start bool  // "start [go]": the goroutine begins and arrives at its first operation
 }
 
 var atRe = regexp.MustCompile(` @t=(\d+)$`)
@@ -86,14 +87,15 @@ func loadTrace() {
 		}
 		var k int
 		fmt.Sscanf(m[1], "%d", &k)
-		if strings.Contains(line, "start [go]") || strings.Contains(line, "tau@") {
+		if strings.Contains(line, "tau@") {
 			continue
 		}
+		isStart := strings.Contains(line, "start [go]")
 		at := int64(-1)
 		if am := atRe.FindStringSubmatch(line); am != nil {
 			fmt.Sscanf(am[1], "%d", &at)
 		}
-		traceSteps = append(traceSteps, traceStep{k, strings.Split(m[2], " -> "), at})
+		traceSteps = append(traceSteps, traceStep{k, strings.Split(m[2], " -> "), at, isStart})
 	}
 }
 
@@ -116,7 +118,24 @@ func paceSchedule() {
 	prevT, prevName := -1, ""
 	t := 0
 	lastEnv := false
+	// every other group of attempts releases an environment goroutine whose move is
+	// a rendez-vous with the library at the instant it ARRIVED at the operation in
+	// the counterexample (it is parked there when the library comes), not at the
+	// instant of the joint step: the library does not wait for a partner when
+	// another arm of its select is ready
+	byArrival := (paceAttempt/3)%2 == 1
+	arr := map[string]int{}
+	arrAt := map[string]int64{}
 	for _, st := range traceSteps {
+		if st.start {
+			for _, n := range st.names {
+				if env[n] {
+					arr[n] = t
+					arrAt[n] = st.at
+				}
+			}
+			continue
+		}
 		lib, isEnv := false, false
 		for _, n := range st.names {
 			if env[n] {
@@ -132,10 +151,16 @@ func paceSchedule() {
 		if isEnv {
 			for _, n := range st.names {
 				if env[n] {
-					paceTimes[n] = append(paceTimes[n], t)
-					paceMoves[n] = append(paceMoves[n], envMove{t: t, glob: glob, chained: prevT == t && prevName != n && prevName != "", at: st.at})
+					tm, at := t, st.at
+					if a, ok := arr[n]; ok && byArrival && lib && a < t {
+						tm, at = a, arrAt[n]
+					}
+					paceTimes[n] = append(paceTimes[n], tm)
+					paceMoves[n] = append(paceMoves[n], envMove{t: tm, glob: glob, chained: tm == t && prevT == t && prevName != n && prevName != "", at: at})
 					glob++
 					prevT, prevName = t, n
+					arr[n] = t
+					arrAt[n] = st.at
 				}
 			}
 			lastEnv = true
@@ -285,6 +310,18 @@ func runBMCOnce(h func(), attempt int) (fails []string, applicable bool, panicke
 	nmu.Unlock()
 	loadTrace()
 	applicable = true
+	// an environment parameter of the counterexample: the number of processors the
+	// code under test was told it has (runtime.GOMAXPROCS / NumCPU are symbolic)
+	mu.Lock()
+	load()
+	gmp := cx.Vals["gomaxprocs#0"]
+	mu.Unlock()
+	if gmp != "" {
+		var n int
+		if _, err := fmt.Sscanf(gmp, "%d", &n); err == nil && n >= 1 && n <= 256 {
+			defer runtime.GOMAXPROCS(runtime.GOMAXPROCS(n))
+		}
+	}
 	mu.Lock()
 	paceStart = time.Now()
 	mu.Unlock()
